@@ -116,6 +116,15 @@ pub fn scenario(layout: &str, behaviour: &str, when: &str, requests: usize) -> S
     }
 }
 
+/// The prewarmer plugin makes every new server connection run statements of the pooler's own: those are
+/// requests to that server like any other (and copied as such); a mirror connection has none of its own.
+pub fn scenario_prewarm(layout: &str, behaviour: &str, requests: usize) -> Scenario {
+    let mut sc = scenario(layout, behaviour, "from-start", requests);
+    sc.toml = sc.toml.replacen("\n[pools.", "\n[plugins.prewarmer]\nenabled = true\nqueries = [\"SELECT 'prewarm one'\", \"SELECT 'prewarm two'\"]\n\n[pools.", 1);
+    sc.name = format!("{} prewarmer=on", sc.name);
+    sc
+}
+
 fn is_subsequence(small: &[Msg], big: &[Msg]) -> Option<usize> {
     // returns the index in `small` of the first message that cannot be matched
     let mut j = 0;
@@ -275,12 +284,16 @@ pub fn build(tier: &str) -> SimCheck {
             }
         }
     }
+    for layout in LAYOUTS {
+        scenarios.push(scenario_prewarm(layout, "healthy", 6));
+        scenarios.push(scenario_prewarm(layout, "close-mid-stream", 6));
+    }
     SimCheck {
         scenarios,
         oracle: Box::new(oracle),
         bound: if thorough { 3 } else { 2 },
         limits: Limits { max_wall_s: if thorough { 2400.0 } else { 55.0 }, ..Default::default() },
-        rule: "scenario = mirror layout (one mirror on server 0, on server 1, two on server 0, one on each) x behaviour of the first mirror (healthy, down, closing after accept, SYN black hole, accepting and never answering, accepting and never reading, closing mid-stream, answering errors, slow), from the start or toggled (and recovered) at every point of the client's program (<= bound deviations); 22-30 requests (each server gets more chunks than the 10-slot mirror channel holds) alternating between primary and replica over both protocols incl. COPY and multi-kilobyte replies".into(),
+        rule: "scenario = mirror layout (one mirror on server 0, on server 1, two on server 0, one on each) x behaviour of the first mirror (healthy, down, closing after accept, SYN black hole, accepting and never answering, accepting and never reading, closing mid-stream, answering errors, slow), from the start or toggled (and recovered) at every point of the client's program (<= bound deviations); 22-30 requests (each server gets more chunks than the 10-slot mirror channel holds) alternating between primary and replica over both protocols incl. COPY and multi-kilobyte replies; also with the prewarmer plugin on (statements of the pooler's own on every new server connection)".into(),
         assumptions: vec![
             "'same replies as without mirrors' is judged against the direct-connection reference; 'no added waiting' as: every reply arrives in the virtual instant of its request".into(),
             "request wholeness is checked at message level (the backend cannot see the pooler's write boundaries)".into(),
